@@ -16,6 +16,13 @@
 (*    has a fixed width), times are UTC civil time, hexadecimal and UUID   *)
 (*    layouts are fixed.  All of these are DEFINED here from \div and %.   *)
 (*                                                                         *)
+(*  - the EVENT that is logged is constructed from the exchange: the      *)
+(*    status is the final status the client received (never an            *)
+(*    informational 1xx that preceded it), the body size is the number of *)
+(*    body bytes the client received, the request fields are what the     *)
+(*    client sent, the upstream fields name the target that was contacted *)
+(*    (section "the exchange").                                           *)
+(*                                                                         *)
 (* TLC integers are 32 bit.  Values that do not fit (sizes up to 2^63-1,   *)
 (* unix times in ms/us/ns) are naturals in base 10^4, least significant    *)
 (* limb first (the Big operators); everything else is a plain integer.                  *)
@@ -26,10 +33,12 @@ CONSTANTS
     Tokens,       \* format tokens: records [k |-> kind, v |-> spelling, lead |-> "sep" | "id"]
     DeepTokens,   \* the tokens formats longer than two tokens are built from
     Events,       \* log events (records, see EventOK)
-    MaxTokens
+    MaxTokens,
+    Exchanges,    \* HTTP exchanges through the proxy (records, see "the exchange")
+    XFormats      \* the formats (token sequences) exchanges are logged with
 
-VARIABLES fmt, pc, ev, out
-vars == <<fmt, pc, ev, out>>
+VARIABLES fmt, pc, ev, xch, out
+vars == <<fmt, pc, ev, xch, out>>
 
 -----------------------------------------------------------------------------
 \* decimal, hexadecimal
@@ -175,30 +184,100 @@ Joinable(a, b) == /\ ~(a.k = "text" /\ b.k = "text")
                   /\ a.k = "dollar" => b.k = "text"
 WellFormed(f) == \A i \in 1..(Len(f) - 1) : Joinable(f[i], f[i + 1])
 
+
 -----------------------------------------------------------------------------
-\* the machine:  build a format -> Parse -> (Reject | Ready) -> Log(event) -> Written
-Init == fmt = <<>> /\ pc = "build" /\ ev = 0 /\ out = <<>>
+\* the exchange: what happens on the wire, and the event the proxy has to hand to the logger
+\*
+\* x = [id, kind, method, path, query, host, expect, info, status, framing, chunks, raddr, target, svc]
+\*   kind   "proxied"  the upstream answers: informational responses x.info (1xx), then x.status,
+\*                     then the body in the pieces x.chunks (none for HEAD / 204 / 304)
+\*          "refused"  nothing listens at the target: the proxy answers 502
+\*          "timeout"  the upstream does not answer in time: the proxy answers 504
+\*          "noroute"  no route matches: the proxy answers 404 itself
+\*          "redirect" the route is a redirect: the proxy answers x.status (3xx) itself
+\* The handler side of the exchange is a script of calls WriteHeader(n) / Write(n bytes); the wire
+\* semantics of an HTTP/1.1 server turn the script into what the client receives:
+\*   - an informational status (1xx other than 101) is sent at once and fixes nothing,
+\*   - the first other status is THE status of the response, later ones are superfluous,
+\*   - a Write before any status implies 200,
+\*   - body bytes reach the client unless the method is HEAD or the status forbids a body.
+WH(n) == [op |-> "wh", n |-> n]
+WR(n) == [op |-> "w", n |-> n]
+Informational(c) == c \in 100..199 /\ c # 101
+BodyAllowed(m, s) == m # "HEAD" /\ s \notin {204, 304} /\ s \notin 100..199
+UpstreamBody(x) == IF BodyAllowed(x.method, x.status) THEN x.chunks ELSE <<>>
+Script(x) == CASE x.kind = "proxied"  -> [i \in DOMAIN x.info |-> WH(x.info[i])] \o <<WH(x.status)>> \o
+                                         [i \in DOMAIN UpstreamBody(x) |-> WR(UpstreamBody(x)[i])]
+               [] x.kind = "refused"  -> <<WH(502)>>
+               [] x.kind = "timeout"  -> <<WH(504)>>
+               [] x.kind = "noroute"  -> <<WH(404)>>
+               [] x.kind = "redirect" -> <<WH(x.status)>>
+WireStep(st, c, m) ==
+    IF c.op = "wh"
+    THEN IF st.status = 0 /\ ~Informational(c.n) THEN [st EXCEPT !.status = c.n]
+         ELSE IF st.status = 0 THEN [st EXCEPT !.infos = Append(@, c.n)] ELSE st
+    ELSE LET s2 == IF st.status = 0 THEN 200 ELSE st.status
+         IN [st EXCEPT !.status = s2, !.bytes = @ + (IF BodyAllowed(m, s2) THEN c.n ELSE 0)]
+RECURSIVE Wire(_, _, _)
+Wire(st, sc, m) == IF sc = <<>> THEN st ELSE Wire(WireStep(st, Head(sc), m), Tail(sc), m)
+\* what the client receives: final status, number of body bytes, the informational statuses before it
+ClientView(x) == Wire([status |-> 0, bytes |-> 0, infos |-> <<>>], Script(x), x.method)
+
+\* the event of a completed exchange (time and duration are bound by the harness, not here)
+NoAddr == [form |-> "empty", h |-> "", p |-> ""]
+Contacted(x) == x.kind \in {"proxied", "refused", "timeout"}
+EventOf(x) ==
+    LET cv == ClientView(x) IN
+    [req |-> TRUE, t |-> [Y |-> 1970, M |-> 1, D |-> 1, h |-> 0, m |-> 0, s |-> 0, ns |-> 0], dur |-> [s |-> 0, ns |-> 0],
+     size |-> BigOf(cv.bytes), status |-> cv.status,
+     raddr |-> x.raddr, uaddr |-> IF Contacted(x) THEN x.target ELSE NoAddr,
+     method |-> x.method, uri |-> x.path \o (IF x.query = "" THEN "" ELSE "?" \o x.query), proto |-> "HTTP/1.1", host |-> x.host,
+     rurl |-> [present |-> TRUE, scheme |-> "http", host |-> x.host, path |-> x.path, query |-> x.query],
+     uurl |-> IF Contacted(x) THEN [present |-> TRUE, scheme |-> "http", host |-> AddrStr(x.target), path |-> x.path, query |-> x.query]
+              ELSE [present |-> FALSE, scheme |-> "", host |-> "", path |-> "", query |-> ""],
+     hdr |-> x.hdr, svc |-> IF Contacted(x) THEN x.svc ELSE ""]
+\* the statement says nothing about the upstream fields of an exchange that contacts no upstream
+UpstreamField(t) == t.k = "field" /\ t.v \in {"$upstream_addr", "$upstream_host", "$upstream_port", "$upstream_request_scheme",
+                                               "$upstream_request_uri", "$upstream_request_url", "$upstream_service"}
+SizeField(t) == t.k = "field" /\ t.v = "$response_body_size"
+\* ... nor about the size of the body net/http writes for a redirect
+Prescribed(x, f) == /\ ~Contacted(x) => \A i \in DOMAIN f : ~UpstreamField(f[i])
+                    /\ x.kind = "redirect" => \A i \in DOMAIN f : ~SizeField(f[i])
+
+-----------------------------------------------------------------------------
+\* the machine:  build a format -> Parse -> (Reject | Ready) -> Log(event) | Serve(exchange) -> Written
+None == "-"
+Init == fmt \in {<<>>} \cup XFormats /\ pc = "build" /\ ev = 0 /\ xch = None /\ out = <<>>
 
 Extend(t) == /\ pc = "build" /\ Len(fmt) < MaxTokens
              /\ Len(fmt) >= 2 => (t \in DeepTokens /\ \A i \in DOMAIN fmt : fmt[i] \in DeepTokens)
              /\ IF fmt = <<>> THEN TRUE ELSE Joinable(fmt[Len(fmt)], t)
              /\ fmt' = Append(fmt, t)
-             /\ UNCHANGED <<pc, ev, out>>
+             /\ UNCHANGED <<pc, ev, xch, out>>
 Parse == /\ pc = "build"
          /\ pc' = IF Accepts(fmt) THEN "ready" ELSE "rejected"
-         /\ UNCHANGED <<fmt, ev, out>>
+         /\ UNCHANGED <<fmt, ev, xch, out>>
 \* out: one set of admissible renderings per token, in order, and the line terminator
 Log(i) == /\ pc = "ready"
           /\ ev' = i
           /\ out' = [k \in DOMAIN fmt |-> PieceAlts(fmt[k], Events[i])] \o << {"\n"} >>
           /\ pc' = "written"
-          /\ UNCHANGED fmt
-Next == (\E t \in Tokens : Extend(t)) \/ Parse \/ (\E i \in DOMAIN Events : Log(i))
+          /\ UNCHANGED <<fmt, xch>>
+\* an exchange through the proxy completes: its event is constructed and logged
+Serve(x) == /\ pc = "ready" /\ fmt \in XFormats /\ Prescribed(x, fmt)
+            /\ xch' = x.id
+            /\ out' = [k \in DOMAIN fmt |-> PieceAlts(fmt[k], EventOf(x))] \o << {"\n"} >>
+            /\ pc' = "written"
+            /\ UNCHANGED <<fmt, ev>>
+Next == \/ \E t \in Tokens : Extend(t)
+        \/ Parse
+        \/ \E i \in DOMAIN Events : Log(i)
+        \/ \E x \in Exchanges : Serve(x)
 Spec == Init /\ [][Next]_vars
 
 -----------------------------------------------------------------------------
 TypeOK == /\ pc \in {"build", "ready", "rejected", "written"}
-          /\ Len(fmt) <= MaxTokens /\ WellFormed(fmt)
+          /\ (Len(fmt) <= MaxTokens \/ fmt \in XFormats) /\ WellFormed(fmt)
 RejectIffInvalid == /\ pc = "rejected" => (fmt = <<>> \/ \E i \in DOMAIN fmt : Invalid(fmt[i]))
                     /\ pc \in {"ready", "written"} => (fmt # <<>> /\ \A i \in DOMAIN fmt : ~Invalid(fmt[i]))
 \* exactly one line: one piece per token in order, text verbatim, the newline last and only there
@@ -207,6 +286,13 @@ OneLine == pc = "written" =>
               /\ out[Len(out)] = {"\n"}
               /\ \A k \in DOMAIN fmt : /\ out[k] # {} /\ "\n" \notin out[k]
                                        /\ Literal(fmt[k]) => out[k] = {fmt[k].v}
+\* the event of an exchange reports what the client received
+EventFaithful == \A x \in Exchanges :
+                    LET cv == ClientView(x) e == EventOf(x) IN
+                    /\ cv.status \in 200..999 /\ e.status = cv.status /\ e.size = BigOf(cv.bytes)
+                    /\ x.method = "HEAD" => cv.bytes = 0
+                    /\ x.kind = "proxied" => (cv.status = x.status /\ cv.infos = x.info)
+                    /\ \A i \in DOMAIN x.info : Informational(x.info[i])
 \* numbers: the digit definitions agree with arithmetic on the boundaries used
 DecSane == /\ Dec(0, 0) = "0" /\ Dec(0, 3) = "000" /\ Dec(7, 2) = "07" /\ Dec(999999999, 9) = "999999999"
            /\ Dec(1000, 3) = "1000" /\ Dec(2147483647, 0) = "2147483647"
